@@ -108,10 +108,27 @@ def exc_class(name):
             'GeneratorExit': GeneratorExit, 'VfBaseError': VfBaseError}[name]
 
 
-def build_one(gg, ns, prog):
+def traced(f):
+    """A pass-through decorator as users write them (functools.wraps): every
+    decorated graph function shares this wrapper's code object."""
+    @functools.wraps(f)
+    def wrapper(*args, **kwargs):
+        return f(*args, **kwargs)
+    return wrapper
+
+
+def build_one(gg, ns, prog, decorate=False, describe=False):
     """-> ('ok', sha, nunits) | ('exc', ExceptionClassName)"""
     try:
-        sd = gg.build(prog, dict(ns))
+        if decorate:
+            ns2 = dict(ns)
+            f = traced(gg.make_func(prog, ns2))
+            sd = ns2['SynthDef'](prog['name'], f, **gg.synthdef_kwargs(prog))
+        else:
+            sd = gg.build(prog, dict(ns))
+        if describe:
+            from sc3.synth.synthdesc import SynthDesc
+            SynthDesc.new_from(sd)
         b = bytes(sd.as_bytes())
         return ['ok', hashlib.sha256(b).hexdigest(), len(sd._children)]
     except Exception as e:
@@ -201,7 +218,9 @@ def run_shard(spec, acc):
             out[str(i)] = build_one(gg, ns, gen(seed, i))
     elif kind == 'rev':
         for i in reversed(idx):
-            out[str(i)] = build_one(gg, ns, gen(seed, i))
+            out[str(i)] = build_one(gg, ns, gen(seed, i), decorate=i % 2 == 0,
+                                    describe=i % 3 == 0)
+            acc.count('decorated_builds', int(i % 2 == 0))
     elif kind == 'fail':
         for i in idx:
             if rng.random() < 0.6:
@@ -237,6 +256,11 @@ def run_shard(spec, acc):
                  func_code(sdm.SynthDef._optimize_graph),
                  func_code(sdm.SynthDef._topological_sort),
                  func_code(ugm.UGen._add_to_synth)]
+        try:
+            from sc3.synth import synthdesc as sdd
+            codes.append(func_code(sdd.SynthDesc._read_synthdef2))
+        except Exception:
+            pass
         inj = Injector(codes, seed)
         inj.p_yield = cfg['p_yield']
         inj.start()
@@ -254,7 +278,7 @@ def run_shard(spec, acc):
                         with lock:      # acc is not thread safe
                             pass
                         failing_build_threadsafe(gg, tns, trng, seed, acc, main, lock)
-                    r = build_one(gg, tns, gen(seed, i))
+                    r = build_one(gg, tns, gen(seed, i), describe=trng.random() < 0.5)
                     with lock:
                         out[str(i)] = r
                         acc.count('concurrent_builds')
